@@ -558,13 +558,17 @@ class BaseCurve(Intface_BaseCurve):
         if oldctrlpoints is None and oldweights is None:
             self.knotvector = newknotvector
             return
+        if oldweights is not None:
+            newweights = np.dot(matrix, oldweights)
+            if oldctrlpoints is not None and any(w == 0 for w in newweights):
+                # Refuse before anything is modified
+                raise ValueError("Cannot apply: a control point goes to infinity")
         self.ctrlpoints = None
         self.weights = None
         self.knotvector = newknotvector
         if oldweights is None:
             self.ctrlpoints = np.dot(matrix, oldctrlpoints)
             return
-        newweights = np.dot(matrix, oldweights)
         self.weights = newweights
 
         if oldctrlpoints is not None:
